@@ -243,6 +243,15 @@ def init_fail(tag):
     raise RuntimeError("initializer failed")
 
 
+def init_fail_from_3rd(tag):
+    """Succeeds in the first two workers of the run, fails in every later one (a worker added
+    by a resize, a re-spawned one)."""
+    n = sum(1 for ev in LOG if ev[0] == "init")
+    _log("init", tag, _depth())
+    if n >= 2:
+        raise RuntimeError("initializer failed in a late worker")
+
+
 def sq(x):
     return x * x
 
